@@ -267,6 +267,7 @@ func codecFor(m *rec.Rec) (*pktCodec, error) {
 					return nil, nil, nil, 0, fmt.Errorf("Write reports %d bytes consumed of a %d-byte message", n, len(b))
 				}
 				e, l, err := read(d2)
+				c09Earlier("dhcp", func() ([]byte, error) { b, _, err := read(d2); return b, err }, e, err)
 				return lib.ExtractDHCP(d2), nil, e, l, err
 			}}, nil
 	case "lldp":
@@ -315,6 +316,7 @@ func codecFor(m *rec.Rec) (*pktCodec, error) {
 				return nil, nil, nil, 0, err
 			}
 			e, err := v2.MarshalBinary()
+			c09Earlier(m.K, func() ([]byte, error) { return v2.MarshalBinary() }, e, err)
 			return x, v2, e, int(v2.Len()), err
 		},
 		decUsed: func(first, b []byte) (*rec.Rec, util.Message, []byte, int, error) {
@@ -324,6 +326,17 @@ func codecFor(m *rec.Rec) (*pktCodec, error) {
 			}
 			if err := v2.UnmarshalBinary(first); err != nil {
 				return nil, nil, nil, 0, errSkip
+			}
+			if h := prng.Hash64(b); h%3 != 0 && len(b) > 1 {
+				// in between, the same value is offered bytes the decoder rejects (a receive loop that meets a bad
+				// packet): a refused decode must not leave the value in a state that shows in the next good one
+				bad := append([]byte(nil), b...)
+				if h%3 == 1 {
+					bad[0] = bad[0]&0xf0 | 1 // a header-length nibble below any minimum
+				} else {
+					bad = bad[:len(bad)/2]
+				}
+				fw.Recover(func() { v2.UnmarshalBinary(bad) })
 			}
 			if err := v2.UnmarshalBinary(b); err != nil {
 				return nil, nil, nil, 0, err
@@ -339,6 +352,33 @@ func codecFor(m *rec.Rec) (*pktCodec, error) {
 }
 
 var errSkip = fmt.Errorf("skip")
+
+// c09Earlier: the value decoded by the previous decode of this worker (another header, another input) is re-encoded
+// after the current decode: it must still give the bytes it gave then (decoders that keep their results in shared or
+// pooled scratch memory change earlier results). The finding is parked and reported by the next case evaluation.
+var c09Prev struct {
+	kind string
+	re   func() ([]byte, error)
+	was  []byte
+}
+var c09EarlierFinding string
+var c09EarlierChecks int64
+
+func c09Earlier(kind string, re func() ([]byte, error), enc []byte, err error) {
+	if c09Prev.re != nil {
+		c09EarlierChecks++
+		var now []byte
+		var nerr error
+		p, _, _ := fw.Recover(func() { now, nerr = c09Prev.re() })
+		if !p && nerr == nil && !bytes.Equal(now, c09Prev.was) && c09EarlierFinding == "" {
+			c09EarlierFinding = fmt.Sprintf("a %s header decoded earlier re-encoded to %s then; after a later, unrelated decode (of a %s header) it re-encodes to %s", c09Prev.kind, hexHead(c09Prev.was), kind, hexHead(now))
+		}
+	}
+	c09Prev.re = nil
+	if err == nil && enc != nil {
+		c09Prev.kind, c09Prev.re, c09Prev.was = kind, re, append([]byte(nil), enc...)
+	}
+}
 
 func scribble(b []byte) {
 	for i := range b {
@@ -478,6 +518,14 @@ func minInt(a, b int) int {
 
 func c09Eval(c *fw.Ctx, data any) {
 	cs := data.(*c09Case)
+	defer func() {
+		c.Count("earlier_decoded_values_re_encoded_after_later_decodes", c09EarlierChecks)
+		c09EarlierChecks = 0
+		if c09EarlierFinding != "" {
+			c.Violation("earlier-value", "changed", "after-a-later-decode", c09EarlierFinding)
+			c09EarlierFinding = ""
+		}
+	}()
 	switch cs.Mode {
 	case "packed":
 		var g *packedGroup
